@@ -90,7 +90,7 @@ Definition eml_case (T : C07.Model.tables)
   let '(to, cc, tp, th, atts, (to', cc', plain', html', atts')) := c in
   pairs_eqb to to' && pairs_eqb (eml_filter cc) cc'
   && str_eqb (strip (eml_body tp)) plain' && str_eqb (eml_body th) html'
-  && triples_eqb (map (fun a => eml_attachment T (mkMpAtt (fst a) (snd a))) atts) atts'.
+  && triples_eqb (eml_attachments T (map (fun a => mkMpAtt (fst a) (snd a)) atts)) atts'.
 
 (* a whole message of several attachments: the model's iterate_supported_attachments with a marker oracle
    (every extractor run yields its own identity and the file name it was given), against the sequence of
